@@ -79,6 +79,7 @@ func TestVerifSim(t *testing.T) {
 		verifos.Finish(&done)
 		<-finished
 	})
-	verifos.WriteResult(code)
+	// main() does os.Exit(run()): the status a parent sees is the low 8 bits
+	verifos.WriteResult(code & 0xff)
 	os.Stdout, os.Stderr = realOut, realErr
 }
